@@ -209,10 +209,9 @@ fn c35_filtered_topic_handle() {
 
 // Deletions (delete_user_defined_publisher/subscriber/topic) would have to be shown to preserve the invariant the
 // creations rely on (every live entity's key < counter). One real delete_user_defined_publisher on a participant with
-// ONE publisher holding a directly installed writer did not finish in 900 s (load 14) even with global unwind 3,
-// per-loop unwindsets and the removed entity's drop glue cut out: both outcomes of `data_writer_list.is_empty()` are
-// explored and the accepted branch drags the recursive drop glue of TypeIdentifier boxes. NOT decided: see DESIGN.md
-// (seeded change C35-1 is therefore missed by this check).
+// ONE publisher holding a directly installed writer did not finish in 900 s — with and without assertion reach checks,
+// global unwind 3 with per-loop unwindsets, and with the removed entity's drop glue cut out (harness kept in
+// harness/parked/c35_delete_invariant.rs). NOT decided: seeded change C35-1 is therefore missed by this check.
 // create_data_writer / create_data_reader (writer_counter / reader_counter) are NOT decided: one such call on a
 // participant (topic + publisher + writer, symbolic counter) did not fit — Symex 24 s, 1618 VCCs after
 // simplification, then "Solver ran out of memory during propositional reduction" at 26 GB / 450 s — even with the
